@@ -178,6 +178,8 @@ def make_input(I: Interp, name, kind):
     if kind.startswith("node:"):
         cls = loader.resolve(kind[5:]) if ":" in kind[5:] else _node_cls(kind[5:])
         return I.sym_node(cls, z3.Const(name, V))
+    if kind.startswith("bv"):
+        return SymBV(z3.Const(name, z3.BitVecSort(int(kind[2:]))))
     if kind == "symdict":
         return SymDict(z3.Const(name, V), None, name)
     if kind.startswith("obj:"):
